@@ -67,12 +67,6 @@ func (timeoutErr) Error() string   { return "injected: i/o timeout" }
 func (timeoutErr) Timeout() bool   { return true }
 func (timeoutErr) Temporary() bool { return true }
 
-func injected(err error) bool {
-	var te timeoutErr
-	return errors.Is(err, io.ErrShortWrite) || errors.Is(err, syscall.EAGAIN) || errors.Is(err, syscall.EINTR) || errors.As(err, &te) ||
-		errors.Is(err, os.ErrClosed) || errors.Is(err, io.ErrClosedPipe) || errors.Is(err, syscall.EPIPE) || strings.HasPrefix(err.Error(), "injected:")
-}
-
 func newRecWriter() *recWriter {
 	return &recWriter{entered: make(chan struct{}, 1), release: make(chan struct{})}
 }
@@ -487,7 +481,9 @@ func execute(e *hk.Env, sc *scenario) outcome {
 				continue
 			}
 			<-ready[r.hidx]
-			if err := r.emit(hs[r.hidx], g); err != nil && !(sc.failEvery > 0 && injected(err)) {
+			// C02 does not constrain the error value Handle returns: while faults are injected any error is accepted
+			// (wrapped, annotated, replaced); without injected faults an error is reported
+			if err := r.emit(hs[r.hidx], g); err != nil && sc.failEvery == 0 {
 				errMu.Lock()
 				errs = append(errs, err.Error())
 				errMu.Unlock()
